@@ -46,8 +46,8 @@ var (
 )
 
 const (
-	c11LimitChain  = 150     // length of the include chain (documented maximum 100)
-	c11LimitDepth  = 5_000   // evaluate() nesting depth (include chain <= 100 files x element nesting)
+	c11LimitChain  = 150   // length of the include chain (documented maximum 100)
+	c11LimitDepth  = 5_000 // evaluate() nesting depth (include chain <= 100 files x element nesting)
 	c11LimitEvals  = 3_000_000
 	c11LimitSerial = 5_000_000
 	c11LimitLayout = 120 // layout loop iterations (documented maximum 100)
@@ -233,23 +233,23 @@ func (p *c11) dims(ctx core.Ctx) (soup, types, graph, layout, strct int) {
 var c11SlotForward = []map[string]string{
 	{"page.vuego": `<template include="panel.vuego"><template #header>Hello</template><p>body</p></template>`,
 		"panel.vuego": `<template include="card.vuego"><template #header><slot name="header">Panel</slot></template><slot></slot></template>`,
-		"card.vuego": `<div><header><slot name="header">H</slot></header><slot>B</slot></div>`},
+		"card.vuego":  `<div><header><slot name="header">H</slot></header><slot>B</slot></div>`},
 	{"page.vuego": `<template include="panel.vuego"></template>`,
 		"panel.vuego": `<template include="card.vuego"><template #header><slot name="header">Panel</slot></template><slot></slot></template>`,
-		"card.vuego": `<div><header><slot name="header">H</slot></header><slot>B</slot></div>`},
+		"card.vuego":  `<div><header><slot name="header">H</slot></header><slot>B</slot></div>`},
 	{"page.vuego": `<template include="panel.vuego"><template v-slot:header="p">{{ p.n }}</template></template>`,
 		"panel.vuego": `<section><template include="card.vuego"><template v-slot:header="q"><slot name="header" :n="q.n">Panel</slot></template></template></section>`,
-		"card.vuego": `<div><slot name="header" :n="1">H</slot></div>`},
+		"card.vuego":  `<div><slot name="header" :n="1">H</slot></div>`},
 	{"page.vuego": `<template include="panel.vuego"><i>x</i></template>`,
 		"panel.vuego": `<template include="card.vuego"><template #header><slot>Panel</slot></template><template #default><slot name="header">D</slot></template></template>`,
-		"card.vuego": `<div><slot name="header">H</slot><slot>B</slot></div>`},
+		"card.vuego":  `<div><slot name="header">H</slot><slot>B</slot></div>`},
 	{"page.vuego": `<template include="a.vuego"><template #s>top</template></template>`,
 		"a.vuego": `<template include="b.vuego"><template #s><slot name="s">A</slot></template></template>`,
 		"b.vuego": `<template include="c.vuego"><template #s><slot name="s">B</slot></template></template>`,
 		"c.vuego": `<p><slot name="s">C</slot></p>`},
 	{"page.vuego": `<template include="panel.vuego"><template #header>Hello</template></template>`,
 		"panel.vuego": `<div v-for="k in two"><template include="card.vuego"><template #header><slot name="header">Panel</slot></template></template></div>`,
-		"card.vuego": `<div><slot name="header">H</slot></div>`},
+		"card.vuego":  `<div><slot name="header">H</slot></div>`},
 	{"page.vuego": "---\nlayout: lay\n---\n<template #side><slot name=\"side\">x</slot></template><p>b</p>",
 		"layouts/lay.vuego": `<aside><slot name="side">FB</slot></aside><main v-html="content"></main>`},
 }
